@@ -5,7 +5,7 @@ import EdVerif.Gen.Ssa
 
 Evaluates (compiled) the same checkers as `EdVerif/Props/Structural/*.lean` on `EdVerif.Gen.Ssa` and
 prints, per predicate, its verdict and every offending site (function, block, instruction index,
-kind, file:line).  Usage: `ssadiag [all|C03|C11|C14|C15|C18|C19|labels]...`.  Exit code 1 iff some
+kind, file:line).  Usage: `ssadiag [all|wf|C03|C11|C14|C15|C18|C19|labels]...`.  Exit code 1 iff some
 selected predicate is false.
 
 Lines: `PREDICATE <id> <name>=<bool> …`, `SITE <id> <status> <function> | block b instr i | <kind> | <file>:<line>`,
@@ -42,6 +42,12 @@ def diagC03 : IO Bool := do
     unless (residual sites allowNoKF).any (fun a => k.1 == a.1 && k.2.1 == a.2.1 && k.2.2 == a.2.2) do
       IO.println s!"ISSUE C03 known-finding-not-reproduced {Nm.toString k.1} kind={Nm.toString k.2.1} count={k.2.2}"
   return ok && exact
+
+def diagWf : IO Bool := do
+  let ok := wellFormed prog hints
+  IO.println s!"PREDICATE wf wellFormed={ok} hints={hints.length} funcs={prog.funcs.length}"
+  showSites "wf" "violation" (allSites prog hints (wfSelector prog))
+  return ok
 
 def diagLabels : IO Bool := do
   let ok := provConsistent prog hints
@@ -92,6 +98,7 @@ def main (args : List String) : IO UInt32 := do
   let want (id : String) : Bool := args.isEmpty || args.contains "all" || args.contains id
   let mut good := true
   IO.println s!"PROGRAM functions={prog.funcs.length} instructions={(prog.funcs.map (·.instrs.length)).foldl (· + ·) 0} globals={prog.globals.length}"
+  if want "wf" then good := (← diagWf) && good
   if want "C03" then good := (← diagC03) && good
   if want "labels" then good := (← diagLabels) && good
   if want "C11" then good := (← diagC11) && good
